@@ -175,8 +175,10 @@ func genC12() *rapid.Generator[Case] {
 			// same length and another value - so the new records end on record boundaries of the failed ones
 			echo := Step{K: "tx", Managed: true}
 			for _, op := range bad.Ops[:rapid.IntRange(1, len(bad.Ops)).Draw(t, "echon")] {
-				if op.K == "spop" {
-					continue // SPop may hand out any member: main and twin could legitimately diverge
+				if op.K != "put" && op.K != "putts" {
+					// only the key/value writes are echoed: a structure call copied into the history could make a later
+					// SPop of the history choose among several members (main and twin may legitimately pop different ones)
+					continue
 				}
 				if op.K == "put" || op.K == "putts" {
 					for _, k := range kvKeys {
@@ -250,7 +252,7 @@ func runC12Once(c Case, st *Stats, fault *FaultSpec) (nw, ns int, fired bool, er
 			hasMergeStep = true
 		}
 	}
-	var ambiguous bool
+	var ambiguous, diverged bool
 	compare := func(i int, what string) error {
 		om, ot := Observe(m, u, oo), Observe(tw, u, oo)
 		lastTwinObs = ot
@@ -266,7 +268,7 @@ func runC12Once(c Case, st *Stats, fault *FaultSpec) (nw, ns int, fired bool, er
 			if DiffObs(o1, om) == "" {
 				return nil
 			}
-			if ambiguous {
+			if ambiguous && diverged {
 				// The transaction in doubt was invisible in the process and is visible after the reopen (allowed), and a
 				// later transaction touched the same keys: what that one did was decided without seeing it (a ZRem of a
 				// member only the doubtful transaction had added was a no-op and logged nothing), so the state is that of
@@ -313,7 +315,19 @@ func runC12Once(c Case, st *Stats, fault *FaultSpec) (nw, ns int, fired bool, er
 			tm := m.RunTx(s, true, nil)
 			tt := tw.RunTx(s, true, nil)
 			if t1 != nil {
-				t1.RunTx(s, true, nil)
+				// a later transaction that behaves differently with and without the doubtful transaction (a removal
+				// that finds nothing, a pop that returns another element) makes the case ambiguous, see compare
+				t1r := t1.RunTx(s, true, nil)
+				if inDoubt {
+					if t1r.Committed != tt.Committed || len(t1r.Res) != len(tt.Res) {
+						diverged = true
+					}
+					for j := range t1r.Res {
+						if j < len(tt.Res) && t1r.Res[j].String() != tt.Res[j].String() {
+							diverged = true
+						}
+					}
+				}
 			}
 			if tm.Panic != "" || tt.Panic != "" || tm.BeginErr != nil {
 				return nw, ns, fired, errSkip
